@@ -274,7 +274,7 @@ class EngineD:
                     if g.random() < 0.3:
                         steps.append({"op": "import", "path": path, "index_base": 1, "scribble": g.random() < 0.4})
             elif k == "import":
-                steps.append({"op": "import", "path": g.choice(written), "index_base": 1, "scribble": g.random() < 0.4})
+                steps.append({"op": "import", "path": g.choice(written), "index_base": 1, "scribble": g.random() < 0.4, "call": g.choice([None, None, "positional"])})
             else:
                 path = g.choice(PATHS)
                 base = g.choice([0, 1, 0, 2])
@@ -283,7 +283,7 @@ class EngineD:
                     obj = self._gen_obj(g)
                 steps.append({"op": "foreign", "path": path, "base": base, "obj": obj})
                 written.append(path)
-                steps.append({"op": "import", "path": path, "index_base": base})
+                steps.append({"op": "import", "path": path, "index_base": base, "call": g.choice(["keyword", "positional"])})
         world = self._start(res.init)
         try:
             for step in steps:
@@ -453,7 +453,10 @@ class EngineD:
                 return True
             fs.arm(None)
             try:
-                got = self.ttb.import_data(path, index_base=base) if base != 1 or "foreign_base" in truth else self.ttb.import_data(path)
+                if step.get("call") == "positional":
+                    got = self.ttb.import_data(path, base)
+                else:
+                    got = self.ttb.import_data(path, index_base=base) if base != 1 or "foreign_base" in truth else self.ttb.import_data(path)
             except Exception as e:  # noqa: BLE001
                 v = V("import_succeeds", f"import_data raised {type(e).__name__}: {e}")
                 got = None
